@@ -26,8 +26,10 @@ ASSUMPTIONS = ["CPython reference counting reclaims an unreferenced instance imm
                "final census", "clear() is the documented reset: instances created before it are not expected afterwards",
                "instances a query has yielded may be kept alive by krrood itself (C20's subject); the census measures "
                "actual liveness, so C13 stays silent about that"]
-BOUNDS = {"quick": {"depth_from_empty": 5, "depth_from_prepopulated": 4, "alphabet": 10, "depth_under_identity_adversary": 4},
-          "thorough": {"depth_from_empty": 6, "depth_from_prepopulated": 5, "alphabet": 12, "depth_under_identity_adversary": 5}}
+BOUNDS = {"quick": {"depth_from_empty": 5, "depth_from_prepopulated": 4, "alphabet": 10, "depth_under_identity_adversary": 4,
+                    "depth_declared_queries": 5},
+          "thorough": {"depth_from_empty": 6, "depth_from_prepopulated": 5, "alphabet": 12, "depth_under_identity_adversary": 5,
+                       "depth_declared_queries": 6}}
 CHUNK = 400
 RECYCLE_CHUNKS = 6
 BUDGET_S = {"quick": 900, "thorough": 8000}
@@ -48,12 +50,121 @@ def cases(tier, seed):
         for k in range(0, depth + 1):
             for seq in itertools.product(ops, repeat=k):
                 out.append((start, seq))
+    # queries that are declared early, evaluated later or several times, or left open while instances come and go
+    for k in range(2, b["depth_declared_queries"] + 1):
+        for seq in itertools.product(DECLARED_OPS, repeat=k):
+            if not any(o[0] in ("query_declared", "drain_open") for o in seq) or not any(o[0] in ("declare", "open") for o in seq):
+                continue
+            out.append(("declared", seq))
     # the same histories when the allocator hands the identity of every dead instance to the next instance born
     # (mc/idadv.py), wherever an instance is born after another one died and before the next sweep / query / clear
-    for start, seq in list(out):
+    for start, seq in [c for c in out if c[0] != "declared"]:
         if len(seq) <= b["depth_under_identity_adversary"] and reuse_possible(start + seq):
             out.append((start, seq, "recycled"))
     return out
+
+
+DECLARED_OPS = [("new", "A"), ("new", "B"), ("new_late",), ("drop", "newest"), ("drop", "oldest"), ("declare", "A"),
+                ("query_declared", "A"), ("open", "A"), ("drain_open",)]
+_LATE = [0]
+
+
+def run_declared(case):
+    """a query over let(HA, None) that is declared before the instances (and even a subclass) exist, evaluated later and
+    repeatedly; an iterator that is left open while instances are created and dropped"""
+    from krrood.entity_query_language.symbol_graph import SymbolGraph
+    from krrood.entity_query_language.entity import entity, let
+    from krrood.entity_query_language.quantify_entity import an
+    from dataclasses import dataclass
+    _, seq = case
+    res = CaseResult()
+    SymbolGraph().clear()
+    SymbolGraph()
+    live, census = [], []
+    declared = None
+    declared_evaluations = 0
+    changed_since_first_evaluation = False
+    opened = None  # (iterator, ids alive when it was opened, results so far)
+    counter = 0
+    feats = {"declared"}
+
+    def alive():
+        return {id(r()): n for n, r in census if r() is not None}
+
+    for i, op in enumerate(seq):
+        where = f"declared-queries: after {seq[:i + 1]}"
+        res.transitions += 1
+        try:
+            k = op[0]
+            if k in ("new", "new_late"):
+                counter += 1
+                if k == "new_late":
+                    _LATE[0] += 1
+                    cls = dataclass(eq=False)(type(f"HLate{_LATE[0]}", (_H.HB,), {"__module__": _H.__name__}))
+                    feats.add("late-subclass")
+                else:
+                    cls = _H.TYPES[op[1]]
+                obj = cls(counter)
+                live.append(obj)
+                census.append((f"{cls.__name__.lower()}{counter}", weakref.ref(obj)))
+                del obj
+                changed_since_first_evaluation = changed_since_first_evaluation or declared_evaluations > 0
+            elif k == "drop" and live:
+                o = live.pop(-1 if op[1] == "newest" else 0)
+                r = weakref.ref(o)
+                del o
+                if r() is None:
+                    changed_since_first_evaluation = changed_since_first_evaluation or declared_evaluations > 0
+            elif k == "declare" and declared is None:
+                declared = an(entity(let(_H.HA, None)))
+            elif k == "query_declared" and declared is not None:
+                got = list(declared.evaluate())
+                declared_evaluations += 1
+                exp = alive()
+                g = sorted(id(x) for x in got)
+                bad_none = any(x is None for x in got)
+                del got
+                if g != sorted(exp):
+                    f = Failure("declared-query-differs", f"{where}: the query declared earlier (evaluation #{declared_evaluations}) "
+                                                          f"ranges over {[exp.get(x, '<dead or unknown>') for x in g]}, live instances are {sorted(exp.values())}")
+                    f.sig_hint = "re-evaluated" if declared_evaluations > 1 and changed_since_first_evaluation else "first"
+                    res.failures.append(f)
+                    break
+                if declared_evaluations > 1 and changed_since_first_evaluation:
+                    feats.add("re-evaluated-after-change")
+            elif k == "open" and opened is None:
+                it = iter(an(entity(let(_H.HA, None))).evaluate())
+                first = next(it, None)
+                opened = (it, set(alive()), [first] if first is not None else [])
+                first = None
+            elif k == "drain_open" and opened is not None:
+                it, at_open, sofar = opened
+                rest = list(it)
+                results = sofar + rest
+                now = alive()
+                names = [now.get(id(x), "<not a live instance>") if x is not None else "None" for x in results]
+                must = {x for x in at_open if x in now}
+                ids = [id(x) for x in results if x is not None]
+                del rest, sofar
+                opened = None
+                feats.add("drained-open-iterator")
+                if any(x is None for x in results) or len(set(ids)) != len(ids) or not must <= set(ids) or any(x not in now for x in ids):
+                    del results
+                    res.failures.append(Failure("open-iterator-wrong", f"{where}: an iterator opened earlier and drained now yielded {names}; "
+                                                                       f"instances alive the whole time: {sorted(now[x] for x in must)}"))
+                    break
+                del results
+        except Exception as e:
+            res.failures.append(Failure("crash", f"{where}: {type(e).__name__}: {e}"))
+            break
+    res.features = feats
+    res.nontrivial_key = case
+    res.outcome_key = ("declared", len(res.failures), len(live))
+    del declared, opened
+    live.clear()
+    gc.collect()
+    gc.freeze()
+    return res
 
 
 def reuse_possible(hist):
@@ -108,6 +219,8 @@ def hook_births():
 
 
 def run_case(case):
+    if case[0] == "declared":
+        return run_declared(case)
     if len(case) == 3:
         hook_births()
         _ADV[0] = idadv.IdAdversary(recycle=True)
@@ -220,11 +333,14 @@ def finish(run):
 
 
 def classify(case, failure):
+    # C13-F2: the second and later evaluations of ONE domain-less variable keep the domain of the first one
+    if failure.kind == "declared-query-differs" and getattr(failure, "sig_hint", None) == "re-evaluated":
+        return "C13/re-evaluated-variable-keeps-first-domain"
     return None
 
 
 def cluster_key(case, f):
-    return (f.detail.split(":")[1][:40] if f.kind != "crash" else f.detail[-80:],)
+    return (f.kind, f.detail.split(":")[1][:40] if f.kind != "crash" else f.detail[-80:],)
 
 
 def repro(case):
